@@ -72,15 +72,13 @@ def _cm(M):
     return np.array([[complex(e[0], e[1]) for e in row] for row in M])
 
 
-def check_case(case, enforce_all=False):
+def build_inputs(case, out=None):
+    """Construct H (dict of orders), the implicit and complete eigenvector lists, kwargs and solver options of a case."""
     from scipy import sparse
-    from scipy.sparse.linalg import LinearOperator
 
     from props.c16 import _blocks, build_h0
-    from pymablock import block_diagonalize
-    from pymablock.series import one, zero
 
-    out = Outcome()
+    labels = []
     kpm = case["solver"].startswith("kpm")
     c = dict(case, nh=case["nh"] and not kpm)
     H0, R, L, E = build_h0(c)
@@ -89,11 +87,11 @@ def check_case(case, enforce_all=False):
     sizes = c["sizes"]
     nexp = sum(sizes)
     blocks = _blocks(c, R, L)
-    out.labels += ["solver=" + ("kpm" if kpm else "direct"), f"params={k}", f"explicit-blocks={len(sizes)}"]
+    labels += ["solver=" + ("kpm" if kpm else "direct"), f"params={k}", f"explicit-blocks={len(sizes)}"]
     if nh:
-        out.labels.append("biorthogonal")
+        labels.append("biorthogonal")
     if c["complex"]:
-        out.labels.append("complex")
+        labels.append("complex")
     pert = []
     for M in c["pert"]:
         A = _cm(M)
@@ -107,18 +105,17 @@ def check_case(case, enforce_all=False):
     wrap = (lambda A: sparse.csr_array(A))
     ham = {(0,) * k: wrap(H0) if c["sparse_h0"] else H0}
     if c["sparse_h0"]:
-        out.labels.append("sparse-h0")
+        labels.append("sparse-h0")
     for q, A in enumerate(pert):
         ham[tuple(int(j == q) for j in range(k))] = wrap(A) if c["sparse_pert"] else A
     Eexp = [E[sum(sizes[:b]) : sum(sizes[: b + 1])] for b in range(len(sizes))]
     degenerate = any(len(set(np.round(e, 9))) < len(e) for e in Eexp)
     if degenerate:
-        out.labels.append("degenerate-explicit")
-    # selection on explicit blocks
+        labels.append("degenerate-explicit")
     kwargs = {"hermitian": not nh}
     if c["selection"] == "full":
         kwargs["fully_diagonalize"] = (0,)
-        out.labels.append("selection")
+        labels.append("selection")
     elif c["selection"] == "mask":
         s0 = sizes[0]
         mask = np.zeros((s0, s0), dtype=bool)
@@ -127,7 +124,7 @@ def check_case(case, enforce_all=False):
                 if abs(Eexp[0][x] - Eexp[0][y]) > 1e-6 and (c["mask_salt"] + 3 * x + 5 * y) % 2:
                     mask[x, y] = mask[y, x] = True
         kwargs["fully_diagonalize"] = {0: mask}
-        out.labels.append("selection")
+        labels.append("selection")
     Rb = [b[0] for b in blocks]
     Lb = [b[1] for b in blocks]
     R_rest, L_rest = R[:, nexp:], L[:, nexp:]
@@ -145,8 +142,30 @@ def check_case(case, enforce_all=False):
         n_aux = min(c["n_aux"], n - nexp - 2) if c["solver"] == "kpm_aux" else 0
         if n_aux > 0:
             so["auxiliary_vectors"] = R_rest[:, :n_aux].copy()
-            out.labels.append("aux-vectors")
+            labels.append("aux-vectors")
         opts = {"solver_options": so, "direct_solver": False}
+    return {"c": c, "ham": ham, "kwargs": kwargs, "opts": opts, "vec_impl": vec_impl, "vec_full": vec_full, "R": R, "L": L, "E": E,
+            "Rb": Rb, "Lb": Lb, "R_rest": R_rest, "L_rest": L_rest, "labels": labels, "kpm": kpm, "degenerate": degenerate}
+
+
+def check_case(case, enforce_all=False):
+    from scipy import sparse
+    from scipy.sparse.linalg import LinearOperator
+
+    from pymablock import block_diagonalize
+    from pymablock.series import one, zero
+
+    out = Outcome()
+    B_ = build_inputs(case)
+    c, ham, kwargs, opts = B_["c"], B_["ham"], B_["kwargs"], B_["opts"]
+    vec_impl, vec_full, R, L = B_["vec_impl"], B_["vec_full"], B_["R"], B_["L"]
+    Rb, Lb, R_rest, L_rest = B_["Rb"], B_["Lb"], B_["R_rest"], B_["L_rest"]
+    kpm, degenerate = B_["kpm"], B_["degenerate"]
+    out.labels += B_["labels"]
+    n, k, K = c["n"], c["n_params"], c["K"]
+    nh = c["nh"]
+    sizes = c["sizes"]
+    nexp = sum(sizes)
     with warnings.catch_warnings(record=True) as wlist:
         warnings.simplefilter("always")
         try:
